@@ -35,10 +35,19 @@ def r03a(model, ctx):
     wakers = []
     side = []   # edge wakers on other processes
     for meth in model.class_methods(cls).values():
+        local = {unparse(s_.targets[0]): s_.value for s_ in ast.walk(meth) if isinstance(s_, ast.Assign) and len(s_.targets) == 1
+                 and isinstance(s_.targets[0], ast.Name)}
         for n in ast.walk(meth):
-            m = pmatch("self.state.add_signal_waker(_V_SIG, edge_waker(_V_PROC, _V_POL))", n)
-            if m is None:
+            m0 = pmatch("self.state.add_signal_waker(_V_SIG, _V_W)", n)
+            if m0 is None:
                 continue
+            wk = m0["_V_W"]
+            if isinstance(wk, ast.Name) and wk.id in local:
+                wk = local[wk.id]          # waker bound to a local first
+            mw = pmatch("edge_waker(_V_PROC, _V_POL)", wk)
+            if mw is None:
+                continue
+            m = {"_V_SIG": m0["_V_SIG"], "_V_PROC": mw["_V_PROC"], "_V_POL": mw["_V_POL"]}
             if unparse(m["_V_PROC"]) == "domain_process":
                 wakers.append((n, unparse(m["_V_SIG"]), m["_V_POL"]))
             else:
